@@ -104,6 +104,9 @@ func buildPack(dm string, partID uint64, entries []trace.Ev) []byte {
 		if strings.HasSuffix(e["val"].(string), "+ttl") {
 			en.SetTTL(time.Now().Add(time.Hour).UnixMilli()) // a copy with an expiry far in the future
 		}
+		if strings.HasSuffix(e["val"].(string), "+exp") {
+			en.SetTTL(time.Now().Add(-time.Second).UnixMilli()) // a copy whose expiry has passed: still the newest write if its timestamp says so
+		}
 		st.Put(partitions.HKey(dm, e["key"].(string)), en)
 	}
 	data, _, err := st.(*kvstore.KVStore).TransferIterator().Export()
@@ -234,7 +237,7 @@ func TestC06(t *testing.T) {
 		nf := 2 + rng.Intn(2)
 		base := make([][]trace.Ev, nf)
 		for i := range base {
-			sfx := func() string { return []string{"", "+ttl"}[rng.Intn(2)] }
+			sfx := func() string { return []string{"", "+ttl", "", "+exp"}[rng.Intn(4)] }
 			base[i] = []trace.Ev{{"k": "k1", "ts": rng.Intn(3), "val": fmt.Sprintf("f%d", i+1) + sfx()}, {"k": "k2", "ts": rng.Intn(3), "val": fmt.Sprintf("f%d", i+1) + sfx()}}
 		}
 		for _, perm := range perms(nf) {
@@ -276,7 +279,7 @@ func TestC06(t *testing.T) {
 					if ok {
 						ev["ts"] = int(e.Timestamp - 1000)
 						ev["val"] = string(e.Value)
-						if (e.TTL != 0) != strings.HasSuffix(ev["val"].(string), "+ttl") {
+						if (e.TTL != 0) != (strings.HasSuffix(ev["val"].(string), "+ttl") || strings.HasSuffix(ev["val"].(string), "+exp")) {
 							ev["val"] = ev["val"].(string) + " with the expiry of another copy"
 						}
 					}
@@ -284,7 +287,8 @@ func TestC06(t *testing.T) {
 				}
 				var fr [][]trace.Ev
 				for _, f := range order {
-					a, b := trace.Ev{"k": "k1", "ts": f[0]["ts"], "val": f[0]["val"]}, trace.Ev{"k": "k2", "ts": f[1]["ts"], "val": f[1]["val"]}
+					a, b := trace.Ev{"k": "k1", "ts": f[0]["ts"], "val": f[0]["val"], "exp": strings.HasSuffix(f[0]["val"].(string), "+exp")},
+						trace.Ev{"k": "k2", "ts": f[1]["ts"], "val": f[1]["val"], "exp": strings.HasSuffix(f[1]["val"].(string), "+exp")}
 					if a["ts"].(int) == 0 {
 						a["val"] = "none"
 					}
